@@ -8,6 +8,7 @@ from __future__ import annotations
 
 import itertools
 import json
+import os
 import re
 
 from .. import runner
@@ -18,11 +19,13 @@ TREE = [
     "srcx/b.py", "src_old/c.py", "tests/test_t.py", "tests/helper.py", "tests2/t.py", "lib/util.ts", "lib/README.md", "lib/deep/er/m.tsx", "docs/guide.md",
     # files (not directories) whose NAME is that of an always-skipped directory: ordinary files of the project, judged like any other
     "src/build", "lib/venv", "docs/pkg.egg-info", "dist",
+    # hidden directories and their dot-less look-alikes; a directory whose name is a number
+    ".github/workflows/ci.yml", ".github/notes.txt", "github/readme.txt", ".config/app/settings.py", "config/app/settings.py", "2024/report.csv", "2024/notes.py",
 ]
 # symbolic links inside the tree to files that live under OTHER rules: each is a file of the project at the place where it is found
 LINKS = {"src/linked_guide.md": "../docs/guide.md", "docs/linked_a.py": "../src/a.py", "lib/deep/linked_t.py": "../../tests/test_t.py", "tests/linked_util.ts": "../lib/util.ts"}
 TREE += sorted(LINKS)
-DIRS = ["src", "src/", "src/api", "src/api/v1", "tests", "lib", "/", "docs", "lib/deep"]
+DIRS = ["src", "src/", "src/api", "src/api/v1", "tests", "lib", "/", "docs", "lib/deep", ".github", ".config/app", "github", "2024"]
 PATTERNS = [r".*\.py$", r"^src/.*", r"test_.*\.py$", r".*\.(ts|tsx)$", r"(?i)readme", r"^[a-z_]+\.py$", r".*_api\.py$", r".*", r".*\.md$", r"^lib/", r"v1/"]
 BAD_PATTERNS = ["[", "(?P<", "*abc", "(unclosed", "a{2,1}"]
 
@@ -110,12 +113,12 @@ def exec_case(case):
     carrier = case["carrier"]
     if carrier == "rules-inline":
         argv += ["--rules", json.dumps(rules)]
-    elif carrier == "yaml-hyphen":
+    elif carrier in ("yaml-hyphen", "yaml-underscore"):
         import yaml
-        files[".thailint.yaml"] = yaml.safe_dump({"file-placement": rules})
-    elif carrier == "yaml-underscore":
-        import yaml
-        files[".thailint.yaml"] = yaml.safe_dump({"file_placement": rules})
+        dumped = yaml.safe_dump({"file-placement" if carrier == "yaml-hyphen" else "file_placement": rules})
+        if case.get("bare_number_keys"):
+            dumped = re.sub(r"^(\s*)'(\d+)':", r"\1\2:", dumped, flags=re.M)  # 2024: instead of '2024': - YAML reads the key as a number
+        files[".thailint.yaml"] = dumped
     elif carrier == "json":
         files[".thailint.json"] = json.dumps({"file-placement": rules})
     elif carrier == "config-opt":
@@ -131,6 +134,8 @@ def exec_case(case):
     cwd, target = (d, ".") if not case.get("from_sub") else (d + "/src", "..")
     if case.get("abs"):
         target = d
+    if case.get("abs_dotdot"):
+        target = _os.path.join(d, "src", "..")  # the project root spelled absolutely through a sub-directory and back
     r = runner.cli(argv + [target], cwd)
     vs = r.violations()
     rows = None
@@ -154,7 +159,8 @@ def run(ctx):
     cases = []
     carriers = ["rules-inline", "yaml-hyphen", "yaml-underscore", "json", "config-opt"]
     for i in range(ctx.size(600, 6000)):
-        cases.append({"rules": gen_rules(rng), "carrier": carriers[i % len(carriers)], "from_sub": rng.random() < 0.15, "kind": "random", "abs": rng.random() < 0.2})
+        cases.append({"rules": gen_rules(rng), "carrier": carriers[i % len(carriers)], "from_sub": rng.random() < 0.15, "kind": "random", "abs": rng.random() < 0.2, "bare_number_keys": rng.random() < 0.5,
+                      "abs_dotdot": rng.random() < 0.1})
     cases.append({"rules": {}, "carrier": "rules-inline", "kind": "no-rules"})
     cases.append({"rules": {}, "carrier": "yaml-hyphen", "kind": "no-rules"})
     if not ctx.quick:
@@ -224,7 +230,11 @@ def run(ctx):
                     for gc in (False, True):
                         variants[(sp, gc)] = ref(rules, p, sp, gc)[0]
                 observed = p in got_tree
-                if variants[(True, False)] == observed and variants[(False, False)] != observed and variants[(False, True)] != observed:
+                if case.get("bare_number_keys") and case["carrier"].startswith("yaml") and any(str(k).isdigit() for k in (rules.get("directories") or {})):
+                    key, why = "verdict-mismatch:numeric-yaml-key", "a directory key that YAML reads as a number"
+                elif case.get("abs_dotdot"):
+                    key, why = "verdict-mismatch:absolute-target-through-dotdot", "the target is spelled /abs/proj/src/.."
+                elif variants[(True, False)] == observed and variants[(False, False)] != observed and variants[(False, True)] != observed:
                     key = "dir-rule-string-prefix"
                     why = "a directory rule is applied by string prefix (e.g. 'src' also governs 'srcx/...')"
                 elif variants[(False, True)] == observed and variants[(False, False)] != observed:
@@ -233,6 +243,8 @@ def run(ctx):
                 elif variants[(True, True)] == observed and variants[(False, False)] != observed:
                     key = "dir-rule-string-prefix+global-on-covered"
                     why = "string-prefix directory matching combined with global rules on covered files"
+                elif p.startswith((".github", ".config", "github/", "config/")):
+                    key, why = "verdict-mismatch:hidden-directory", "a hidden directory or its dot-less look-alike"
                 else:
                     key = "verdict-mismatch"
                     why = "no known mechanism explains it"
